@@ -866,13 +866,84 @@ func (m *monC05) AfterBegin(w *World, _ abci.ResponseBeginBlock) {
 // ---------------------------------------------------------------------------------------------
 // C17 — reported circulating supply = total supply − locked eFUND
 
-type monC17 struct{ BaseMonitor }
+type monC17 struct {
+	BaseMonitor
+	hist map[int64]*c17Figures // what the supply endpoints had to answer at the last few heights
+}
+
+type c17Figures struct {
+	bank   map[string]*big.Int
+	locked *big.Int
+	denom  string
+}
 
 func (m *monC17) Name() string  { return "C17" }
 func (m *monC17) Init(w *World) { w.armedShadow = w.armedShadow || w.PropOverride == "C17" }
 
 func (m *monC17) AfterBlock(w *World) {
 	m.check(w, w.CCtx(), &QuerySpec{Kind: "supply.total", Limit: 100})
+	m.served(w)
+}
+
+// c17Locked is the reference for "total locked eFUND": what the bank holds in the enterprise
+// escrow account (a genesis document with unbacked locked eFUND is the one scenario where the
+// two differ by construction; there the module's own figure has to do).
+func c17Locked(w *World, ctx sdk.Context, denom string) *big.Int {
+	if w.T.Knobs.UnbackedLocked != "" {
+		if tl, err := w.Ref.App.EnterpriseKeeper.TotalLocked(sdk.WrapSDKContext(ctx), &enttypes.QueryTotalLockedRequest{}); err == nil {
+			return tl.Amount.Amount.BigInt()
+		}
+	}
+	return escrowBalance(w, ctx, denom)
+}
+
+// served asks the supply endpoints the way a client reaches them - through the ABCI query
+// connection, first at an earlier height and then at the latest one - and compares the answers
+// with the figures recorded when those heights were committed.
+func (m *monC17) served(w *World) {
+	ctx := w.CCtx()
+	denom := w.M.Ent.Denom
+	cur := &c17Figures{bank: supplyMap(w, ctx), locked: c17Locked(w, ctx, denom), denom: denom}
+	h := w.Ref.App.LastBlockHeight()
+	ask := func(height int64, f *c17Figures, tag string) {
+		want := new(big.Int)
+		if f.bank[f.denom] != nil {
+			want.Set(f.bank[f.denom])
+		}
+		want.Sub(want, f.locked)
+		var so enttypes.QuerySupplyOfResponse
+		if err := abciQueryAt(w, "/mainchain.enterprise.v1.Query/SupplyOf", height, &enttypes.QuerySupplyOfRequest{Denom: f.denom}, &so); err != nil {
+			w.Violate("C17", "C17/served/query-error"+tag, "SupplyOf(%s) at height %d: %v", f.denom, height, err)
+		} else if so.Amount.Amount.BigInt().Cmp(want) != 0 {
+			w.Violate("C17", "C17/served/supply-of-native-wrong"+tag, "SupplyOf(%s) asked at height %d answers %s; bank supply %s, locked %s", f.denom, height, so.Amount, bigStr(f.bank[f.denom]), f.locked)
+		}
+		var tu enttypes.QueryTotalUnlockedResponse
+		if err := abciQueryAt(w, "/mainchain.enterprise.v1.Query/TotalUnlocked", height, &enttypes.QueryTotalUnlockedRequest{}, &tu); err != nil {
+			w.Violate("C17", "C17/served/query-error"+tag, "TotalUnlocked at height %d: %v", height, err)
+		} else if tu.Amount.Amount.BigInt().Cmp(want) != 0 {
+			w.Violate("C17", "C17/served/locked-plus-unlocked-ne-total"+tag, "TotalUnlocked asked at height %d answers %s; bank supply %s, locked %s", height, tu.Amount, bigStr(f.bank[f.denom]), f.locked)
+		}
+		var ts enttypes.QueryTotalSupplyResponse
+		if err := abciQueryAt(w, "/mainchain.enterprise.v1.Query/TotalSupplyOverwrite", height, &enttypes.QueryTotalSupplyRequest{Pagination: &query.PageRequest{Limit: 1000}}, &ts); err != nil {
+			w.Violate("C17", "C17/served/query-error"+tag, "TotalSupplyOverwrite at height %d: %v", height, err)
+		} else if ts.Supply.AmountOf(f.denom).BigInt().Cmp(want) != 0 {
+			w.Violate("C17", "C17/served/total-supply-entry-wrong"+tag, "the supply listing asked at height %d holds %s of %s; bank supply %s, locked %s", height, ts.Supply.AmountOf(f.denom), f.denom, bigStr(f.bank[f.denom]), f.locked)
+		}
+	}
+	if !w.IsShadow {
+		if m.hist == nil {
+			m.hist = map[int64]*c17Figures{}
+		}
+		m.hist[h] = cur
+		delete(m.hist, h-6)
+		// an earlier height first (clients and explorers do ask for old heights), then the latest
+		if old := m.hist[h-1-int64(w.BlockIdx%4)]; old != nil {
+			ask(h-1-int64(w.BlockIdx%4), old, "/historical")
+			w.Probe("c17.served-historical")
+		}
+	}
+	ask(0, cur, "")
+	w.Probe("c17.served-latest")
 }
 
 func (m *monC17) OnQuery(w *World, q *QuerySpec, mid bool) {
@@ -892,7 +963,11 @@ func (m *monC17) check(w *World, ctx sdk.Context, q *QuerySpec) {
 		w.Violate("C17", "C17/query-error", "TotalLocked %v", err)
 		return
 	}
-	locked := tl.Amount.Amount.BigInt()
+	// the reference is what the bank holds in escrow, not the module's own account of it
+	locked := c17Locked(w, ctx, w.M.Ent.Denom)
+	if tl.Amount.Amount.BigInt().Cmp(locked) != 0 {
+		w.Violate("C17", "C17/total-locked-differs-from-escrow", "TotalLocked answers %s, the escrow account holds %s", tl.Amount, locked)
+	}
 	if locked.Sign() > 0 {
 		w.Probe("c17.locked-positive")
 	}
